@@ -12,7 +12,7 @@ from ..common import Check, pmap
 from ..dotgraph import Graph
 from ..parreplay import replay_path
 
-TRACE_INVS = ['TypeOK', 'NoDup', 'NoLoss', 'WindowBound', 'ExactlyOnce', 'SameAsSequential']
+TRACE_INVS = ['TypeOK', 'NoDup', 'NoLoss', 'WindowBound', 'ExactlyOnce', 'SameAsSequential', 'CancelledSound']
 
 
 def real_pool_cases(tier, seed):
@@ -35,6 +35,16 @@ def real_pool_cases(tier, seed):
                         delays = {str(t): rr.choice([0, 0, 0, 1, 2, 5, 12]) for t in range(1, n + 1)}
                         cases.append({'n': n, 'raising': raising, 'workers': wk, 'branch': branch, 'delays': delays,
                                       'consumer_delay': rr.choice([0, 0, 3])})
+        # the consumer cancels after its k-th result; payloads given as a generator; the legacy entry point; two loops alive at once
+        for branch in ('process', 'thread', 'seq'):
+            for n, k in ((5, 1), (5, 3), (4, 4), (6, 2)):
+                cases.append({'n': n, 'raising': [2], 'workers': 2, 'branch': branch, 'delays': {str(t): rr.choice([0, 1, 4]) for t in range(1, n + 1)},
+                              'cancel_after': k})
+            cases.append({'n': 5, 'raising': [1, 4], 'workers': 2, 'branch': branch, 'delays': {}, 'iterable': 'generator'})
+            cases.append({'n': 5, 'raising': [3], 'workers': 2, 'branch': branch, 'delays': {}, 'iterable': 'generator', 'entry': 'legacy'})
+            cases.append({'n': 4, 'raising': [], 'workers': 1, 'branch': branch, 'delays': {}, 'entry': 'legacy'})
+        for branch in ('process', 'thread'):
+            cases.append({'n': 6, 'raising': [2], 'workers': 2, 'branch': branch, 'delays': {str(t): 3 for t in range(1, 7)}, 'second_loop': True})
         for branch in ('process', 'thread', 'seq'):
             cases.append({'n': 1, 'raising': rr.choice([[], [1]]), 'workers': 2, 'branch': branch, 'delays': {}})
             cases.append({'n': 0, 'raising': [], 'workers': 2, 'branch': branch, 'delays': {}})
@@ -108,7 +118,7 @@ def _tlc_group(arg):
     path = os.path.join(d, f'tr_{nt}_{w}.json')
     json.dump([{k: v for k, v in r.items() if not k.startswith('_')} for r in recs], open(path, 'w'))
     cfg = os.path.join(d, f'tr_{nt}_{w}.cfg')
-    open(cfg, 'w').write(f'CONSTANT NT = {nt}\nCONSTANT Window = {w}\nCONSTANT Modes = {{"window", "all", "seq", "single"}}\n'
+    open(cfg, 'w').write(f'CONSTANT NT = {nt}\nCONSTANT Window = {w}\nCONSTANT Modes = {{"window", "all", "seq", "single"}}\nCONSTANT Cancels = TRUE\n'
                          'INIT TraceInit\nNEXT TNext\n' + ''.join(f'INVARIANT {i}\n' for i in TRACE_INVS)
                          + 'CHECK_DEADLOCK FALSE\nPOSTCONDITION AllAccepted\n')
     return tlc.run_tlc('ParProcTrace', cfg=cfg, env={'VERIF_TRACES': path}, workers=1, timeout=600, heap='2g')
@@ -179,11 +189,13 @@ def validate_real_pools(ck, d, tier):
         raise tlc.MachineryError(f'only {nacc} of {len(cases)} real-pool executions were validated')
 
 
-def write_cfg(path, nt, window, modes, live=True):
+def write_cfg(path, nt, window, modes, live=True, cancels=False):
     open(path, 'w').write(
         f'CONSTANT NT = {nt}\nCONSTANT Window = {window}\nCONSTANT Modes = {{{", ".join(chr(34) + m + chr(34) for m in modes)}}}\n'
-        'SPECIFICATION Spec\nINVARIANT TypeOK\nINVARIANT NoDup\nINVARIANT NoLoss\nINVARIANT WindowBound\nINVARIANT ExactlyOnce\n'
-        'INVARIANT SameAsSequential\nINVARIANT CapturedNeverBlocks\n' + ('PROPERTY Finishes\n' if live else '') + 'CHECK_DEADLOCK FALSE\n')
+        f'CONSTANT Cancels = {"TRUE" if cancels else "FALSE"}\n'
+        'SPECIFICATION Spec\nINVARIANT TypeOK\nINVARIANT NoDup\n' + 'INVARIANT NoLoss\nINVARIANT WindowBound\n'
+        'INVARIANT ExactlyOnce\nINVARIANT SameAsSequential\nINVARIANT CapturedNeverBlocks\nINVARIANT CancelledSound\n'
+        'PROPERTY NoSubmitAfterCancel\n' + ('PROPERTY Finishes\n' if live else '') + 'CHECK_DEADLOCK FALSE\n')
 
 
 def run_real_parproc(case):
@@ -250,34 +262,37 @@ def run(tier):
     d = tlc.scratch_dir('parproc')
     try:
         # (1) exhaustive model checking
-        configs = [(5, 3, ['window', 'all', 'seq']), (4, 2, ['window']), (1, 2, ['single']), (0, 2, ['window', 'seq'])]
+        configs = [(5, 3, ['window', 'all', 'seq'], False), (4, 2, ['window'], False), (1, 2, ['single'], False), (0, 2, ['window', 'seq'], False),
+                   (4, 2, ['window', 'seq'], True), (4, 3, ['window', 'all'], True)]            # ... with the consumer cancelling at any point
         if tier == 'thorough':
-            configs += [(6, 3, ['window']), (6, 4, ['window', 'all']), (5, 2, ['window'])]
-        for nt, w, modes in configs:
-            cfg = os.path.join(d, f'pp_{nt}_{w}.cfg')
-            write_cfg(cfg, nt, w, modes)
-            r = tlc.run_tlc('ParProc', cfg=cfg, timeout=1500, coverage=(nt == 5 and w == 3))
-            ck.add_tlc(r, f'ParProc NT={nt} Window={w} Modes={modes}')
+            configs += [(6, 3, ['window'], False), (6, 4, ['window', 'all'], False), (5, 2, ['window'], False), (5, 3, ['window', 'all', 'seq'], True)]
+        for nt, w, modes, cancels in configs:
+            cfg = os.path.join(d, f'pp_{nt}_{w}_{int(cancels)}.cfg')
+            write_cfg(cfg, nt, w, modes, cancels=cancels)
+            r = tlc.run_tlc('ParProc', cfg=cfg, timeout=1500, coverage=(nt in (4, 5) and w == 3))
+            ck.add_tlc(r, f'ParProc NT={nt} Window={w} Modes={modes} Cancels={cancels}')
             if r.violated:
                 ck.violation({'kind': 'schedule', 'inputs': {'spec': 'ParProc', 'NT': nt, 'Window': w, 'Modes': modes},
                               'expected': 'all invariants and Finishes', 'observed': r.violated, 'trace': r.trace[:80]},
                              key=f'ParProc{nt}{w}{r.violated}')
             if r.coverage:
-                dead = [a for a in ('InitialSubmit', 'While', 'Complete', 'Observe', 'ForEnd', 'Refill', 'Yield', 'SeqStep')
-                        if not r.coverage.get(a)]
+                dead = [a for a in ('InitialSubmit', 'While', 'Complete', 'Observe', 'ForEnd', 'Refill', 'Yield', 'Resume')
+                        + (('Cancel',) if cancels else ('SeqStep',)) if not r.coverage.get(a)]
                 if dead:
                     raise tlc.MachineryError(f'vacuous ParProc run: actions never taken: {dead}')
         # (2) behaviours replayed into the real loop
         cases = []
-        for nt, w, mode in ([(4, 2, 'window'), (3, 2, 'window'), (3, 3, 'all')] if tier == 'quick'
-                            else [(5, 3, 'window'), (5, 2, 'window'), (4, 2, 'window'), (4, 3, 'all'), (3, 2, 'window')]):
-            cfg = os.path.join(d, f'dump_{nt}_{w}_{mode}.cfg')
-            write_cfg(cfg, nt, w, [mode], live=False)
-            dot = os.path.join(d, f'g_{nt}_{w}_{mode}')
+        for nt, w, mode, cancels in ([(4, 2, 'window', False), (3, 2, 'window', False), (3, 3, 'all', False), (3, 2, 'window', True), (3, 3, 'all', True)]
+                                     if tier == 'quick' else
+                                     [(5, 3, 'window', False), (5, 2, 'window', False), (4, 2, 'window', False), (4, 3, 'all', False),
+                                      (3, 2, 'window', False), (4, 2, 'window', True), (3, 3, 'all', True), (4, 3, 'window', True)]):
+            cfg = os.path.join(d, f'dump_{nt}_{w}_{mode}_{int(cancels)}.cfg')
+            write_cfg(cfg, nt, w, [mode], live=False, cancels=cancels)
+            dot = os.path.join(d, f'g_{nt}_{w}_{mode}_{int(cancels)}')
             r = tlc.run_tlc('ParProc', cfg=cfg, workers=1, dump_dot=dot, timeout=1500)
             g = Graph(dot + '.dot')
             paths = g.edge_cover_paths(is_final=lambda n: g.states[n]['pc'] == 'Done')
-            ck.notes.setdefault('graphs', []).append({'NT': nt, 'Window': w, 'mode': mode, 'states': len(g.states),
+            ck.notes.setdefault('graphs', []).append({'NT': nt, 'Window': w, 'mode': mode, 'Cancels': cancels, 'states': len(g.states),
                                                       'edges': sum(1 for _ in g.edges()), 'paths': len(paths)})
             for k, (start, path) in enumerate(paths):
                 init = g.states[start]
